@@ -1,8 +1,9 @@
 """C09 extension family (audit round):
 
 olaexact  overlap_add.list on blocks of exact samples that are not dyadic
-          floats - non-dyadic Fractions, integers above 2**53 - without
-          normalisation, with no window or a Fraction window: nothing in the
+          floats - non-dyadic Fractions, integers above 2**53 - with no
+          window (then without normalisation: 1/ceil(size/hop) is an int
+          division) or a Fraction window (normalised or not): nothing in the
           sum needs a float, so every output sample must *equal* the double sum
           out[n] = sum_k w[n-k*h]*B_k[n-k*h] (the statement's quantifier says
           "exact sample values").  A float accumulator rounds 1/3 and loses the
@@ -36,25 +37,36 @@ def cases(ctx):
     if rng.random() < 0.4:
       wnd = [Fraction(rng.randint(-6, 6), rng.choice([1, 3, 7]))
              for _ in range(size)]
+    norm = wnd is not None and rng.random() < 0.5
+    if norm and not any(wnd):
+      norm = False                  # all-zero window: the gain is undefined
     yield ("olaexact", size, hop, blks, wnd,
-           rng.choice(["list", "tuple", "gen", "stream"]))
+           rng.choice(["list", "tuple", "gen", "stream"]), norm)
 
 
 def run_case(ctx, case):
-  _, size, hop, blks, wnd, cont = case
+  _, size, hop, blks, wnd, cont, norm = case
   m = len(blks)
   n_out = m * hop + size - hop
   want = [Fraction(0)] * n_out
+  g = Fraction(1)
+  if norm:
+    # reciprocal of the largest hop-strided sum of |w| (exact: Fractions only)
+    g = 1 / max(sum((abs(w) for w in wnd[j::hop]), Fraction(0))
+                for j in range(hop))
+    ctx.count("olaexact:normalised")
+    if size % hop:
+      ctx.count("olaexact:normalised-hop-does-not-divide-size")
   for k, blk in enumerate(blks):
     for i, v in enumerate(blk):
-      want[k * hop + i] += (1 if wnd is None else wnd[i]) * v
+      want[k * hop + i] += g * (1 if wnd is None else wnd[i]) * v
   src = {"list": lambda: [list(b) for b in blks],
          "tuple": lambda: tuple(tuple(b) for b in blks),
          "gen": lambda: (list(b) for b in blks),
          "stream": lambda: Stream([list(b) for b in blks])}[cont]()
   got = list(overlap_add.list(src, size=size, hop=hop,
                               wnd=None if wnd is None else list(wnd),
-                              normalize=False))
+                              normalize=norm))
   ctx.count("olaexact:cases")
   ctx.count("olaexact:window-" + ("none" if wnd is None else "fractions"))
   if hop < size:
@@ -78,3 +90,4 @@ def finish(ctx):
   ctx.need("olaexact:cases", 200)
   ctx.need("olaexact:overlapping", 100)
   ctx.need("olaexact:window-fractions", 50)
+  ctx.need("olaexact:normalised-hop-does-not-divide-size", 20)
